@@ -1,3 +1,4 @@
 import VncSpec.Address
 import VncSpec.C2S
 import VncSpec.Keys
+import VncSpec.Pointer
